@@ -123,6 +123,25 @@ fn real_main(args: &[String]) -> i32 {
             0
         }
         Some("smoke") => common::smoke(args.get(2).map(String::as_str).unwrap_or("local")),
+        Some("selftest-worker") => {
+            if args.len() < 7 {
+                return usage();
+            }
+            let Some(c) = checks.iter().find(|c| c.id() == args[2]) else { return 2 };
+            selftest_worker(
+                c.as_ref(),
+                args[3].parse().unwrap_or(DEFAULT_SEED),
+                args[4].parse().unwrap_or(0),
+                args[5].parse().unwrap_or(1),
+                args[6].parse().unwrap_or(0),
+            );
+            0
+        }
+        Some("selftest") => {
+            let count: u64 = args.get(2).and_then(|s| s.parse().ok()).unwrap_or(500);
+            let only = args.get(3).map(String::as_str);
+            selftest(&checks, count, env_seed(), only)
+        }
         Some("replay") => {
             let Some(f) = args.get(2) else { return usage() };
             let quiet = args.iter().any(|a| a == "--quiet");
